@@ -208,6 +208,52 @@ func discharge(o *Oblig, lits []*Term, workDir string, idx int, tsec int, allAgr
 			v.Status, v.Backend, v.Output = "failed", backends[0].name, truncate(out, 20000)
 			return v
 		}
+		// attempt 1b: only the quantified hypotheses that share a symbol with the goal (dropping hypotheses only weakens what is
+		// assumed, so a proof from a subset is a proof); unrelated invariants otherwise derail instantiation
+		if o2 := relevantVersion(o); o2 != nil {
+			f2 := file + ".rel.smt2"
+			os.WriteFile(f2, []byte(smtText(o2, lits, false)), 0o644)
+			first, _, secs := runSolver(backends[0], f2, 3)
+			v.Seconds += secs
+			v.Tried = append(v.Tried, "z3-new(relevant):"+first)
+			rmQuery(f2)
+			if first == "unsat" {
+				v.Status = "discharged"
+				v.Backend = "z3-new (relevant hypotheses)"
+				rmQuery(file)
+				return v
+			}
+		}
+		// attempt 1c: case split on the most frequent ground if-then-else condition (e.g. "append reallocates or not"): both
+		// cases proved is a proof of the obligation
+		if cases := caseSplit(o); cases != nil {
+			all := true
+			for ci, oc := range cases {
+				f2 := fmt.Sprintf("%s.case%d.smt2", file, ci)
+				os.WriteFile(f2, []byte(smtText(oc, lits, false)), 0o644)
+				first, _, secs := runSolver(backends[0], f2, 3)
+				v.Seconds += secs
+				if first != "unsat" {
+					if rv := relevantVersion(oc); rv != nil {
+						os.WriteFile(f2, []byte(smtText(rv, lits, false)), 0o644)
+						first, _, secs = runSolver(backends[0], f2, 3)
+						v.Seconds += secs
+					}
+				}
+				rmQuery(f2)
+				if first != "unsat" {
+					all = false
+					break
+				}
+			}
+			v.Tried = append(v.Tried, fmt.Sprintf("z3-new(case split):%v", all))
+			if all {
+				v.Status = "discharged"
+				v.Backend = "z3-new (case split)"
+				rmQuery(file)
+				return v
+			}
+		}
 		// attempt 2: the quantifier-free version built by ground instantiation (see instantiate.go)
 		if g := groundVersion(o, lits); g != nil {
 			var qfLits []*Term
@@ -401,4 +447,85 @@ func rmQuery(f string) {
 	if os.Getenv("GVC_KEEP") == "" {
 		os.Remove(f)
 	}
+}
+
+// relevantVersion keeps the quantifier-free hypotheses and those quantified hypotheses/axioms that mention a symbol of the goal
+// (allocation watermarks do not count). nil when nothing would be dropped.
+func relevantVersion(o *Oblig) *Oblig {
+	gs := map[string]bool{}
+	symbolsOf(o.Goal, gs)
+	for k := range gs {
+		if k == "top0" || strings.HasSuffix(k, "_top") {
+			delete(gs, k)
+		}
+	}
+	rel := func(h *Term) bool {
+		hs := map[string]bool{}
+		symbolsOf(h, hs)
+		for k := range hs {
+			if gs[k] {
+				return true
+			}
+		}
+		return false
+	}
+	o2 := *o
+	o2.Hyps, o2.Axioms = nil, nil
+	dropped := 0
+	for _, h := range o.Hyps {
+		if !hasQuant(h) || rel(h) {
+			o2.Hyps = append(o2.Hyps, h)
+		} else {
+			dropped++
+		}
+	}
+	for _, a := range o.Axioms {
+		if rel(a) {
+			o2.Axioms = append(o2.Axioms, a)
+		} else {
+			dropped++
+		}
+	}
+	if dropped == 0 {
+		return nil
+	}
+	return &o2
+}
+
+// caseSplit: the obligation under C and under (not C) for the ground if-then-else condition C that occurs most often in it.
+func caseSplit(o *Oblig) []*Oblig {
+	counts := map[string]int{}
+	terms := map[string]*Term{}
+	var walk func(t *Term)
+	walk = func(t *Term) {
+		if t.Op == "ite" && len(t.Args) == 3 && !mentionsBound(t.Args[0]) && !hasQuant(t.Args[0]) {
+			k := t.Args[0].String()
+			counts[k]++
+			terms[k] = t.Args[0]
+		}
+		for _, a := range t.Args {
+			walk(a)
+		}
+	}
+	walk(o.Goal)
+	for _, h := range o.Hyps {
+		walk(h)
+	}
+	best, bn := "", 0
+	for k, n := range counts {
+		if n > bn || (n == bn && k < best) {
+			best, bn = k, n
+		}
+	}
+	if bn < 2 {
+		return nil
+	}
+	c := terms[best]
+	var out []*Oblig
+	for _, extra := range []*Term{c, mkNot(c)} {
+		oc := *o
+		oc.Hyps = append(append([]*Term(nil), o.Hyps...), extra)
+		out = append(out, &oc)
+	}
+	return out
 }
